@@ -192,11 +192,16 @@ def build(cfg) -> Built:
 # ---------------------------------------------------------------------------------------------
 
 def renoise(m, seed, scale=0.4):
-    """overwrite every parameter by seeded noise (stands for training; makes preservation observable)"""
+    """overwrite every parameter (and BatchNorm running statistic) by seeded noise: stands for training, makes preservation observable"""
     g = torch.Generator().manual_seed(int(seed))
     with torch.no_grad():
         for _, p in sorted(m.named_parameters(), key=lambda kv: kv[0]):
             p.data = torch.randn(p.shape, generator=g) * scale
+        for k, b in sorted(m.named_buffers(), key=lambda kv: kv[0]):  # training also moves BatchNorm's running statistics
+            if k.endswith("running_mean"):
+                b.copy_(torch.randn(b.shape, generator=g) * scale)
+            elif k.endswith("running_var"):
+                b.copy_(0.5 + torch.rand(b.shape, generator=g))
 
 
 def _flat_out(o):
@@ -533,7 +538,9 @@ def run_chain(case, ctx, P):
 def _buffer_cause(c, bufs_before, out_before, batches):
     """'' unless restoring the pre-mutation buffers (same names and shapes) makes the outputs equal again; then the kind of buffer"""
     now = dict(c.named_buffers())
-    changed = [k for k, v in now.items() if k in bufs_before and v.shape == bufs_before[k].shape and not torch.equal(v, bufs_before[k])]
+    # (noise samples of NoisyLinear are re-drawn under a fixed seed before every forward: never a cause)
+    changed = [k for k, v in now.items() if k in bufs_before and v.shape == bufs_before[k].shape and "epsilon" not in k
+               and not torch.equal(v, bufs_before[k])]
     if not changed or set(now) != set(bufs_before):
         return ""
     keep = {k: now[k].detach().clone() for k in changed}
@@ -547,7 +554,7 @@ def _buffer_cause(c, bufs_before, out_before, batches):
     if not same:
         return ""
     kinds = sorted({"batchnorm_running_statistics" if ("running_" in k or "num_batches_tracked" in k) else
-                    ("noise_sample" if "epsilon" in k else "other") for k in changed})
+                    "other" for k in changed})
     return "+".join(kinds)
 
 
